@@ -41,7 +41,7 @@ def c03(req, obs):
     before = None
     for ph in obs.get("phases", []):
         for p in ph.get("pre", []):
-            if p.get("op") == "install_pair":
+            if p.get("op") in ("install_pair", "observe_pair"):
                 before = p["observed"]
     atts = []
     for ph_i, _ in enumerate(obs.get("phases", [])):
@@ -66,7 +66,9 @@ def c03(req, obs):
                 out.append(("chain-parses", "%s|at=%s" % (variant, at),
                             "certificate file, if present, is a parseable certificate chain",
                             "%s: %s" % (where, cert.get("parse_err"))))
-            elif f.get("pair_match") is not True:
+            elif f.get("pair_match") is not True and not (before is not None and before.get("pair_match") is not True
+                                                          and cert.get("sha256") == before["cert"].get("sha256") and key.get("sha256") == before["key"].get("sha256")):
+                # (files that were inconsistent before the run and have not been touched are not the daemon's doing)
                 out.append(("leaf-key=keyfile", "%s|at=%s" % (variant, at),
                             "leaf public key of the certificate file matches the private-key file",
                             "%s: cert leaf spki %s, key file %s" % (where, (cert.get("leaf") or {}).get("spki_sha256"),
